@@ -950,6 +950,10 @@ func (in *Interp) mapFind(m *MapV, k Value) int {
 }
 
 func (in *Interp) mapSet(m *MapV, k, v Value) {
+	if m.arr != nil {
+		m.arr = in.F.Store(m.arr, k.(*Term), in.F.Const(1, 1))
+		return
+	}
 	i := in.mapFind(m, k)
 	if i >= 0 {
 		m.entries[i].v = copyVal(v)
@@ -968,6 +972,10 @@ func (in *Interp) mapDelete(m *MapV, k Value) {
 	if m == nil {
 		return
 	}
+	if m.arr != nil {
+		m.arr = in.F.Store(m.arr, k.(*Term), in.F.Const(1, 0))
+		return
+	}
 	i := in.mapFind(m, k)
 	if i < 0 {
 		return
@@ -979,6 +987,9 @@ func (in *Interp) mapDelete(m *MapV, k Value) {
 }
 
 func (m *MapV) length() int {
+	if m.arr != nil {
+		panic(&pathEnd{kind: "unsupported", msg: "len/range of a symbolic set"})
+	}
 	n := 0
 	for _, e := range m.entries {
 		if e != nil {
@@ -1013,6 +1024,14 @@ func (in *Interp) lookup(ins *ssa.Lookup, x Value, idx Value) Value {
 		vt := ins.X.Type().Underlying().(*types.Map).Elem()
 		var val Value
 		found := false
+		if xv != nil && xv.arr != nil {
+			// symbolic set: membership is a term, no fork here
+			member := in.F.Eq(in.F.Select(xv.arr, idx.(*Term)), in.F.Const(1, 1))
+			if ins.CommaOk {
+				return TupleV{in.zero(vt), member}
+			}
+			return in.zero(vt)
+		}
 		if xv != nil {
 			if i := in.mapFind(xv, idx); i >= 0 {
 				val = copyVal(xv.entries[i].v)
@@ -1045,6 +1064,9 @@ func (in *Interp) rangeIter(x Value) Value {
 		return &iter{str: &xv}
 	case *MapV:
 		it := &iter{m: xv}
+		if xv != nil && xv.arr != nil {
+			panic(&pathEnd{kind: "unsupported", msg: "range over a symbolic set"})
+		}
 		if xv != nil {
 			for i, e := range xv.entries {
 				if e != nil {
